@@ -307,6 +307,16 @@ class NPModel:
             return And(Not(isnan(x)), Not(isfinite(x)))
         return bool(np.isinf(x))
 
+    def isclose(self, a, b, rtol=1e-05, atol=1e-08, equal_nan=False):
+        """np.isclose on finite values: |a - b| <= atol + rtol * |b|"""
+        def f(x, y):
+            if not (is_sym(x) or is_sym(y)):
+                return bool(np.isclose(x, y, rtol=rtol, atol=atol, equal_nan=equal_nan))
+            x, y = Num.lift(x), Num.lift(y)
+            d = self._it.b_abs(x - y)
+            return And(Not(isnan(x)), Not(isnan(y)), d <= self._it.b_abs(y) * rtol + atol)
+        return self._ew2(f, a, b)
+
     def logical_and(self, a, b): return self._ew2(lambda x, y: And(x, y), a, b)
     def logical_or(self, a, b): return self._ew2(lambda x, y: Or(x, y), a, b)
 
@@ -1123,7 +1133,11 @@ class Interp:
         if dt.kind in 'iu' and isinstance(v, Num):
             if self.tags and any(v is t for t in self.tags.values()):
                 return v            # a coordinate symbol of an integer-typed geometry array: already an integer
-            return self.float_to_int(v)
+            r = self.float_to_int(v)
+            if dt.kind == 'u' and isinstance(r, Num):
+                # conversion to an unsigned type wraps negative values (x86 semantics of the C cast, |v| < 2^63)
+                r = ite(r < 0, r + (1 << (8 * dt.itemsize)), r)
+            return r
         if dt.kind in 'iu' and isinstance(v, float):
             return int(v)
         if dt.kind == 'f' and isinstance(v, (SBool, bool, np.bool_)):
